@@ -1,6 +1,7 @@
 import Dbg.Lemmas.KmerOrder
 import Dbg.Lemmas.KmerRc
 import Dbg.Lemmas.KmerExtend
+import Dbg.Lemmas.KmerSlice
 /-! # C11 — K-mer equality, order and hash are those of the string
 
 `==`, `cmp` and `Hash` of both k-mer structs are `#[derive]`d on the `storage` integer (and a
@@ -22,18 +23,22 @@ theorem C11_lt_iff_lex (c : Cfg) (hc : c.WF) (s t : St c) (hs : Inv c s) (ht : I
 /-- value-producing operations of a history -/
 inductive Op
   | extL (b : Nat) | extR (b : Nat) | rc | set (pos v : Nat) | minRc | extend (b : Nat) (right : Bool)
+  | setSlice (pos n : Nat) (value : BitVec 64)
 
 def Op.InRange (K : Nat) : Op → Prop
   | .extL b => b < 4 | .extR b => b < 4 | .rc => True | .set pos v => pos < K ∧ v < 4 | .minRc => True
   | .extend b _ => b < 4
+  | .setSlice pos n _ => 1 ≤ n ∧ n ≤ 32 ∧ pos + n ≤ K
 
 def run (c : Cfg) (s : St c) : Op → St c
   | .extL b => extendLeft c s b | .extR b => extendRight c s b | .rc => rc c s | .set pos v => setMut c s pos v
   | .minRc => minRc c s | .extend b r => extend c s b r
+  | .setSlice pos n v => setSliceMut c s pos n v
 
 def runSpec (l : List Nat) : Op → List Nat
   | .extL b => KSpec.extendLeft l b | .extR b => KSpec.extendRight l b | .rc => KSpec.rc l | .set pos v => l.set pos v
   | .minRc => KSpec.minRc l | .extend b r => if r then KSpec.extendRight l b else KSpec.extendLeft l b
+  | .setSlice pos n v => KSpec.setSlice l pos n v
 
 theorem step_ok (c : Cfg) (hc : c.WF) (hw : c.w ∈ [8, 16, 32, 64, 128]) (s : St c) (hs : Inv c s) (op : Op) (hr : op.InRange c.K) :
     Inv c (run c s op) ∧ toSeq c (run c s op) = runSpec (toSeq c s) op := by
@@ -50,6 +55,8 @@ theorem step_ok (c : Cfg) (hc : c.WF) (hw : c.w ∈ [8, 16, 32, 64, 128]) (s : S
     · have := hlt.mp h; simp [h, this, hs]
     · have : ¬ toSeq c s < toSeq c (rc c s) := fun h' => h (hlt.mpr h')
       simp [h, this, inv_rc hc hw s]
+  | setSlice pos n v =>
+    exact ⟨inv_setSliceMut hc s pos n v hr.1 hr.2.1 hr.2.2 hs, toSeq_setSliceMut hc s pos n v hr.1 hr.2.1 hr.2.2⟩
   | extend b r =>
     cases r with
     | true => exact ⟨inv_extendRight hc s b hr, by simpa [run, runSpec, extend] using toSeq_extendRight hc s b hr⟩
@@ -57,7 +64,7 @@ theorem step_ok (c : Cfg) (hc : c.WF) (hw : c.w ∈ [8, 16, 32, 64, 128]) (s : S
 
 /-- **C11 (histories).** After any finite sequence of in-range value-producing operations the storage
     word satisfies the invariant and spells exactly the string obtained by the same operations on
-    strings.  (`set_slice_mut` is not yet part of `Op`; see the evidence's partial list.) -/
+    strings. -/
 theorem C11_history (c : Cfg) (hc : c.WF) (hw : c.w ∈ [8, 16, 32, 64, 128]) (ops : List Op) (s : St c) (hs : Inv c s)
     (hr : ∀ op ∈ ops, op.InRange c.K) :
     Inv c (ops.foldl (run c) s) ∧ toSeq c (ops.foldl (run c) s) = ops.foldl runSpec (toSeq c s) := by
